@@ -1402,8 +1402,26 @@ pub fn run(ctx: &Ctx, prop: &str) -> Report {
         run_history(&mut rep, prop, &mut rng, n, 0, false, Some(&ops));
         rep.count("history:>10MiB-slab");
     }
+    // bounds the sources under test spell out (read at run time): an entry count and a value length just past each
+    let mined_counts: Vec<usize> = crate::mined_ints("type-length-value/src", 300, 400_000).into_iter().filter(|n| ![1099usize, 4199, 65_999].contains(n)).rev().take(3).collect();
+    let mined_sizes: Vec<usize> = crate::mined_ints("type-length-value/src", 300, 48 * 1024 * 1024).into_iter().rev().take(4).collect();
+    rep.count(&format!("mined-from-source:counts={:?}:sizes={:?}", mined_counts, mined_sizes));
+    for &m in &mined_sizes {
+        let ops = vec![
+            Op::Alloc { t: 0, len: m - 1, allow: false },
+            Op::Write { t: 0, rep: 0, seed: 5 },
+            Op::Alloc { t: 1, len: 3, allow: false },
+            Op::Realloc { t: 0, len: m, rep: 0 },
+            Op::Realloc { t: 0, len: m + 1, rep: 0 },
+            Op::Write { t: 1, rep: 0, seed: 6 },
+            Op::Realloc { t: 0, len: m - 2, rep: 0 },
+            Op::Alloc { t: 2, len: 1, allow: true },
+        ];
+        run_history(&mut rep, prop, &mut rng, m + 200, 0, false, Some(&ops));
+        run_history(&mut rep, prop, &mut rng, m + 12 + 15, 0, false, Some(&ops));
+    }
     // thousands of entries (counts across 2^8, 2^10, 2^12, 2^16), then operations on early and late ones
-    for count in [1100usize, 4200, 66_000] {
+    for count in [1100usize, 4200, 66_000].into_iter().chain(mined_counts.iter().map(|n| n + 1)) {
         let es: Vec<(usize, Vec<u8>)> = (0..count).map(|i| (if i % 97 == 5 { 1 } else { 0 }, vec![(i % 251) as u8])).collect();
         let used: usize = es.iter().map(|(_, v)| 12 + v.len()).sum();
         let init = Oracle { n: used + 64, es };
